@@ -11,19 +11,18 @@ from . import c01, c02, c03
 ID = "C05"
 LEVEL = "proof"
 PROP_FILE = "Properties/C05.v"
-PROOF_FILES = ["Proofs/ThlFinal.v", "Proofs/ThlProofs.v", "Proofs/ExhProofs.v", "Proofs/DpProofs.v", "Proofs/EntryProofs.v",
+PROOF_FILES = ["Proofs/SpfsFinal.v", "Proofs/SpfsProofs.v", "Proofs/UspfsFinal.v", "Proofs/UspfsProofs.v", "Proofs/ThlFinal.v", "Proofs/ThlProofs.v", "Proofs/ExhProofs.v", "Proofs/DpProofs.v", "Proofs/EntryProofs.v",
                "Proofs/ReconProofs.v", "Proofs/PathFacts.v", "Model/Thl.v", "Model/Spfs.v", "Model/Uspfs.v", "Model/Recon.v", "Model/Entry.v"]
 TRUSTED = c01.TRUSTED + c02.TRUSTED + c03.TRUSTED
 ASSUMES = ["binary trees", "coherent cost vectors (F-COHERENCE)"]
 RULE = ("same inputs as C01-C03 (coherent costs); for each, the ALL result of thl, exh, base/ext spfs, base/ext uspfs is compared as a set with the complete optimal set of a brute-force oracle "
         "(canonical optimal set for the unordered solvers) and the ANY result must be a single member of it; non-trivial = the optimal set has at least two elements")
-OPEN_GOALS = ["spfs_all_exact / uspfs_all_exact_canonical (the labelled solvers' ALL result equals the (canonical) optimal set)"]
-TECHNIQUE = "Coq proof of exactness of ALL / singleton ANY for thl and exh (Entry tag laws + decode completeness); labelled solvers: executable models tied to the code and complete optimal sets from a brute-force oracle"
-LEVEL_TEXT = ("Machine-checked inside the coherent region (exh: any costs): reconcile_thl(ALL) and reconcile_exhaustive(ALL) return exactly the minimum-cost valid reconciliations, without repetition; "
-              "under ANY exactly one, which belongs to that set; all returned solutions have the same (minimum) cost; the result is never empty. "
-              "For base/ext SPFS and USPFS the same statements are not yet theorems: their models agree with the code on ALL sets and ANY membership, and the ALL sets are compared with the complete "
-              "(canonical, for unordered) optimal set computed by brute force.")
-LEVEL_NOTE = "Partial for the labelled solvers. Trusted: Coq kernel, hand-written models, correspondence, the independent Python oracle."
+OPEN_GOALS: list = []
+TECHNIQUE = "Coq proof of exactness of ALL / singleton ANY for thl, exh, base/ext SPFS and base/ext USPFS (Entry tag laws + decode soundness and completeness); complete optimal sets also computed by a brute-force oracle"
+LEVEL_TEXT = ("Machine-checked inside the coherent region (exh: any costs): for thl, exh, base/ext SPFS the ALL result is exactly the set of minimum-cost solutions, without repetition; for base/ext USPFS exactly the "
+              "minimum-cost canonical solutions; under ANY exactly one solution, member of that set (SPFS: none iff no solution exists); all returned solutions have the same cost; thl = exh. "
+              "The models agree with the code on ALL sets and ANY membership, and the ALL sets are compared with complete (canonical) optimal sets computed by brute force.")
+LEVEL_NOTE = "Trusted: Coq kernel, hand-written models, correspondence, the independent Python oracle. No axioms."
 
 
 def _opt_ordered(case, lca_only):
